@@ -254,3 +254,15 @@ def _cmd_check(prop, tier, master, runs, workers, wall, out, write_evidence=True
     out.write("%s %s: %d runs, %d steps, %.1fs, %d distinct non-trivial histories, %d abstract states, violations: %d unknown class(es), %d known finding(s)\n" % (
         prop, tier, total["n"], total["steps"], wall_s, len(total["nontrivial"]), len(total["states"]), len(unknown), len(known_hits)))
     return 1 if unknown else 0
+
+
+def cmd_selftest_standin(out):
+    from dsim import bootstrap
+    try:
+        kernel.enter_private_dir("s")
+        bootstrap.setup()
+        from dsim.standin import selftest
+        out.write(selftest.run() + "\n")
+        return 0
+    finally:
+        kernel.cleanup_base_dir()
